@@ -9,6 +9,7 @@ use sdjwt::{Disclosure, HashAlgorithm};
 use serde_json::{json, Value};
 
 pub fn run_case(ctx: &mut Ctx, case: &Value) {
+    crate::real::set_current(case);
     ctx.report.evaluations += 1;
     let ic = match issue_own(ctx, case, "C07") {
         Some(ic) => ic,
@@ -23,7 +24,7 @@ pub fn run_case(ctx: &mut Ctx, case: &Value) {
     }
     // structure: payload exactly as the spec places the digests (each once, at the node's position);
     // digests are recomputed by the driver's own SHA-2 from the disclosure strings
-    if ic.payload.get("_sd_alg") != Some(&json!("sha-256")) {
+    if !ic.marks.is_empty() && ic.payload.get("_sd_alg") != Some(&json!("sha-256")) {
         ctx.report.diff("property", "Issuer::encode", "Issuer::encode:_sd_alg", case, json!({"payload": ic.payload}));
     }
     let real_payload = real::canon_sd(&strip_issuer_members(&ic.payload, &ic.claims));
@@ -78,7 +79,8 @@ pub fn run_case(ctx: &mut Ctx, case: &Value) {
 
 /// `Disclosure::new(k, v).salt_len(n).algorithm(a).build()` and `from_base64`
 fn disclosure_api(ctx: &mut Ctx, rng: &mut Rng, rounds: usize) {
-    let names = ["", "a", "given_name", "é", "a/b", "~", "_sdx", "....", "0", "日本", "with \"quote\"", "tab\t", "_sd", "..."];
+    let names = ["", "a", "given_name", "é", "a/b", "~", "_sdx", "....", "0", "日本", "with \"quote\"", "tab\t", "_sd", "...",
+        "pre\u{301}nom", "a\u{a0}b", "z\u{200b}", "\u{1}ctl", "del\u{7f}", "\u{feff}bom", "soft\u{ad}hyphen", "\u{85}nel", "back\\slash", "\u{1f600}"];
     let values = [json!(null), json!(true), json!(0), json!(-1.5), json!(""), json!("x"), json!([1, "a", null]), json!({"k": [1, {"z": 2}], "a": "b"}), json!("é\n\"")];
     let algs = [(HashAlgorithm::SHA256, "sha-256", 43usize), (HashAlgorithm::SHA384, "sha-384", 64), (HashAlgorithm::SHA512, "sha-512", 86)];
     for _ in 0..rounds {
@@ -146,7 +148,8 @@ pub fn run(ctx: &mut Ctx, replay: Option<&Value>) {
     let n = ctx.count(4_000, 30_000);
     for i in 0..n {
         let mut rng = Rng::fork(ctx.seed, i);
-        let case = gen_own_case(&mut rng, ctx.tier_thorough, i, false, 20);
+        // every 10th case may have no disclosable claim at all (M empty, with or without decoys)
+        let case = if i % 10 == 9 { gen_own_case_min(&mut rng, ctx.tier_thorough, i, false, 20, 0) } else { gen_own_case(&mut rng, ctx.tier_thorough, i, false, 20) };
         run_case(ctx, &case);
     }
     let mut rng = Rng::fork(ctx.seed, 0xD15C);
